@@ -33,4 +33,12 @@ TEXT['C02'] = dict(
     design_ref='DESIGN.md section 4 (C02)',
     note='Trusted: as C01; the induction principle over table rows (base + step obligations) is the meta-rule of the lemma objects.',
     technique='contract-based deductive verification: postconditions + inductive lemmas over contracts, z3')
+TEXT['C03'] = dict(
+    text=('Okta rule, percentage, Python-int okta, code prefix and monotonicity are proved for all (count, total, buffer) values by '
+          'symbolic execution of the real _calculate_cloud_amount / metarize / perc2okta / okta2code and lemmas over the spec function; '
+          'the clause that the count is the number of distinct (ceilometer, time) measurements rests on the library meaning of one pinned '
+          'numpy/pandas expression and is only checked by a bounded recount on a scene grammar (labelled bounded).'),
+    design_ref='DESIGN.md section 4 (C03)',
+    note='Trusted: pyvc, z3, pandas cell-access / sort / astype contracts, the pinned counting expression (bounded stand-in), floats as reals.',
+    technique='contract-based deductive verification (loop invariant over table rows, z3) + bounded run-time contract for the counting clause')
 NA = {}
